@@ -194,7 +194,15 @@ func runProxyCase(world *sideWorld, proxyURL *url.URL, sc *pxScenario, rnd *rand
 	if unit <= 0 {
 		unit = 40
 	}
+	regular := sc.Enc == "gzip" && rnd.Intn(3) == 0
+	if regular && unit < 40000 {
+		unit = 40000 // long enough for the page to shrink several hundred times
+	}
 	body := renderBody(sc.Len*unit, rnd)
+	if regular {
+		// a very regular page: compresses several hundred times
+		body = bytes.Repeat([]byte("metric_a{idx=\"1\",drop=\"0\"} 1\n"), sc.Len*unit/27+1)[:sc.Len*unit]
+	}
 	wire := body
 	if sc.Enc == "gzip" {
 		var zb bytes.Buffer
@@ -264,6 +272,10 @@ func runProxyCase(world *sideWorld, proxyURL *url.URL, sc *pxScenario, rnd *rand
 				other = "scraping stopped by the administrator (mid-scrape)"
 			}
 			_ = world.cfgm.UpdateExtraConfig(prom.ExtraConfig{StopScrapeReason: other})
+			if sc.Assigned {
+				// ... and the coordinator sends a new assignment that keeps this target and adds another one
+				_ = world.apiPost("/api/v1/shard/targets/", mkUpdateReq(append(append([]projAssign{}, req...), projAssign{Job: "j1", H: 77, Series: 1, Total: 1})), nil)
+			}
 		}
 		pre := world.sim.answer(r)
 		if pre.err != nil {
@@ -278,7 +290,11 @@ func runProxyCase(world *sideWorld, proxyURL *url.URL, sc *pxScenario, rnd *rand
 		if sc.Enc == "gzip" {
 			hd.Set("Content-Encoding", "gzip")
 		}
-		return &http.Response{StatusCode: 200, Status: "200 OK", Header: hd, Body: bodyRd, Request: r}, nil
+		resp := &http.Response{StatusCode: 200, Status: "200 OK", Header: hd, Body: bodyRd, Request: r, ContentLength: -1}
+		if len(sc.Cuts) == 0 {
+			resp.ContentLength = int64(len(wire)) // not chunked: the length is announced
+		}
+		return resp, nil
 	})
 	defer func() { world.cli.Transport = world.sim }()
 
